@@ -930,7 +930,9 @@ pub fn gen_desc(r: &mut StdRng, o: &GenOpts) -> Desc {
     if o.customs && r.gen_bool(0.5) {
         for k in 0..r.gen_range(1..4) {
             let after = r.gen_range(0..14) as u8;
-            let nm = if r.gen_bool(0.2) { "dup".to_string() } else { format!("{}{}", name(r, "c"), k) };
+            // names walrus does not interpret, including ones that merely resemble the names it does interpret
+            const TRICKY: [&str; 14] = ["reloc..debug_info", "notes.debug", "x.debug_line", "reloc.name", "names", "name ", "producers2", "producer", "target_features", "sourceMappingURL", "linking", "dylink.0", "", "debug"];
+            let nm = if r.gen_bool(0.2) { "dup".to_string() } else if r.gen_bool(0.3) { TRICKY[r.gen_range(0..TRICKY.len())].to_string() } else { format!("{}{}", name(r, "c"), k) };
             let len = *[0usize, 1, 5, 200].choose(r).unwrap();
             d.customs.push(CustomD { after, name: nm, data: (0..len).map(|_| r.gen()).collect() });
         }
